@@ -5,6 +5,8 @@ CONSTANTS
   Ranges <- AllRanges
   Rows <- RowsA
   DEV_LastTickOverwrittenByRefresh2 = TRUE
+  DEV_LateWriteKeepsLastTick = FALSE
+  LateOps = FALSE
   DEV_ShareWithoutOwnLiquidity = FALSE
 SPECIFICATION Spec
 INVARIANT Inv_C03_NonNeg
